@@ -179,7 +179,7 @@ func c09Pointer(r *rand.Rand, doc any) []string {
 		case []any:
 			switch r.Intn(10) {
 			case 0:
-				toks = append(toks, []string{"x", "-1", "01", "1x"}[r.Intn(4)])
+				toks = append(toks, []string{"x", "-1", "01", "1x", "18446744073709551616", "18446744073709551617", "9223372036854775808"}[r.Intn(7)])
 				cur = nil
 			case 1, 2:
 				toks = append(toks, strconv.Itoa(len(x)+r.Intn(2))) // len (append position) or len+1
@@ -407,7 +407,7 @@ func c09CopyEdit(r *rand.Rand, start map[string]any, o genOpts) Case {
 func init() {
 	register(&Prop{
 		ID:   "C09",
-		Rule: "sequences of 1-12 JSON Patch operations (add, remove, replace, move, copy, test; value/from occasionally missing) on one generated document; pointers aimed at existing locations, sibling keys, index +-1/len/len+1, non-numeric / negative / non-canonical tokens on lists, scalar parents, moves into own descendants and onto themselves; after EVERY step: status and whole document vs an RFC 6902 reference interpreter over plain values (Go) and vs the Coq model of patch.Do and the Coq RFC interpreter; a failing step must leave the document as it was; copy-edit sequences (copy a composite, edit inside the copy, test the source). Non-trivial: a failing step after a succeeding one. Distinct by Gallina term.",
+		Rule: "sequences of 1-12 JSON Patch operations (add, remove, replace, move, copy, test; value/from occasionally missing) on one generated document; pointers aimed at existing locations, sibling keys, index +-1/len/len+1, non-numeric / negative / non-canonical tokens on lists, scalar parents, moves into own descendants and onto themselves (incl. list items of every kind moved or copied beneath themselves, whose right-hand neighbour would slide into their place), all-digit tokens beyond the machine word; after EVERY step: status and whole document vs an RFC 6902 reference interpreter over plain values (Go) and vs the Coq model of patch.Do and the Coq RFC interpreter; a failing step must leave the document as it was; copy-edit sequences (copy a composite, edit inside the copy, test the source). Non-trivial: a failing step after a succeeding one. Distinct by Gallina term.",
 		Corpus: func() []Case {
 			d := map[string]any{"a": []any{1, 2}, "s": "x", "c": map[string]any{"k": []any{map[string]any{"v": 1}, 2}}}
 			v := func(x any) rop { return rop{Val: x, HasVal: true} }
@@ -431,6 +431,32 @@ func init() {
 			start := genDoc(r, o)
 			if idx%6 == 5 {
 				return c09CopyEdit(r, start, o)
+			}
+			if idx%12 == 4 {
+				// move/copy of a list item to a location beneath itself, with every kind of item
+				// and of right-hand neighbour (which slides into the vacated index)
+				mkItem := func() any {
+					switch r.Intn(3) {
+					case 0:
+						return genScalar(r, o)
+					case 1:
+						return map[string]any{"x": r.Intn(3)}
+					default:
+						return []any{r.Intn(3)}
+					}
+				}
+				n := 2 + r.Intn(3)
+				items := make([]any, n)
+				for i := range items {
+					items[i] = mkItem()
+				}
+				start = map[string]any{"root": map[string]any{"list": items}, "s": "x"}
+				i := strconv.Itoa(r.Intn(n))
+				from := []string{"root", "list", i}
+				ops := []rop{{Op: []string{"move", "copy"}[r.Intn(2)], From: from, HasFrom: true,
+					Path: append(append([]string{}, from...), []string{"x", "0", "y", "1", "-"}[r.Intn(5)])}}
+				ops = append(ops, rop{Op: "test", Path: []string{"s"}, Val: "x", HasVal: true})
+				return c09Run(r, start, ops, nil, len(ops))
 			}
 			return c09Run(r, start, nil, func(cur any) rop { return c09GenOp(r, cur, o) }, 1+r.Intn(12))
 		},
